@@ -8,7 +8,8 @@
 //! load_snapshot -> load_log, raft initial state).
 //!
 //! case = {"threshold": n, "phases":[{"reqs":[R..]},..], "plants":[{"before_phase":i,"kind":"copy_last_plus"|"raw",
-//!         "extra":[[tree,keyhex,valuehex]..], "pad_to":n?, "raw":[bytes]}], "keep":false, "timeout_s":60}
+//!         "extra":[[tree,keyhex,valuehex]..], "pad_to":n?, "raw":[bytes]}], "keep":false, "timeout_s":60,
+//!         "pace":false}   (pace=true: after every write wait for a due compaction to finish, see `pace_wait`)
 //! out  = {"r":"ok","phases":[{"start_dump","results","end_dump","files","index","metrics","start_metrics",
 //!         "secs","restart_diff","log_growth_since_prev_end"},..],"plants_done":[..]}
 //!
@@ -160,6 +161,50 @@ async fn quiesce(
     }
 }
 
+fn last_snapshot_end(idx: &Value) -> (u64, u64) {
+    idx["snapshots"]
+        .as_array()
+        .and_then(|a| a.last())
+        .map(|s| (s[0].as_u64().unwrap_or(0), s[1].as_u64().unwrap_or(0)))
+        .unwrap_or((0, 0))
+}
+
+/// `pace`: no write while a compaction runs.  If async-raft's LogsSinceLast trigger has fired
+/// (`last_applied - end_index of the last catalogued snapshot >= threshold`), wait until the catalogue's
+/// last snapshot has changed (to an end_index >= last_applied - (threshold-1)) and the data dir listing has
+/// been stable for 30 ms.  None = nothing due, Some(true) = waited, Some(false) = gave up after 5 s.
+async fn pace_wait(
+    raft: &NacosRaft,
+    node: &MiniNode,
+    dir: &Path,
+    threshold: u64,
+) -> anyhow::Result<Option<bool>> {
+    let applied = raft.metrics().borrow().last_applied;
+    let before = last_snapshot_end(&index_info(node).await?);
+    if applied.saturating_sub(before.1) < threshold {
+        return Ok(None);
+    }
+    let t0 = Instant::now();
+    let mut stable: Option<(Vec<(String, u64)>, Instant)> = None;
+    loop {
+        let now = last_snapshot_end(&index_info(node).await?);
+        let advanced = now != before && now.1 + threshold.saturating_sub(1) >= applied;
+        let l = listing(dir);
+        match &stable {
+            Some((prev, since)) if *prev == l => {
+                if advanced && since.elapsed() >= Duration::from_millis(30) {
+                    return Ok(Some(true));
+                }
+            }
+            _ => stable = Some((l, Instant::now())),
+        }
+        if t0.elapsed() >= Duration::from_secs(5) {
+            return Ok(Some(false));
+        }
+        tokio::time::sleep(Duration::from_millis(5)).await;
+    }
+}
+
 async fn child_run(dir: &str, phase: &Value) -> anyhow::Result<Value> {
     let t0 = Instant::now();
     let threshold = phase["threshold"].as_u64().unwrap_or(20);
@@ -243,6 +288,13 @@ async fn child_run(dir: &str, phase: &Value) -> anyhow::Result<Value> {
             tokio::time::sleep(Duration::from_millis(10)).await;
         }
     }
+    let pace = phase["pace"].as_bool().unwrap_or(false);
+    let mut start_paced = Value::Null;
+    if pace {
+        // the start-up writes (auto-init NodeAddr/Members, admin user, the new leader's blank entry) may
+        // themselves have crossed the threshold: let that compaction finish before the first request
+        start_paced = json!(pace_wait(&raft, &node, &dir_path, threshold).await?);
+    }
     let start_quiet = quiesce(&raft, &node, &dir_path, 60, 10_000).await?;
     node.settle().await?;
     let secs_ready = t0.elapsed().as_secs_f64();
@@ -251,12 +303,27 @@ async fn child_run(dir: &str, phase: &Value) -> anyhow::Result<Value> {
     let secs_start_dump = t0.elapsed().as_secs_f64();
 
     let mut results = vec![];
+    let mut paced_waits = 0u64;
+    let mut paced_timeouts = 0u64;
+    let mut paced_ms = 0f64;
     for req in reqs {
         let r = raft.client_write(ClientWriteRequest::new(req)).await;
         results.push(match r {
             Ok(_) => json!("ok"),
             Err(e) => json!(format!("err:{}", e)),
         });
+        if pace {
+            let t = Instant::now();
+            match pace_wait(&raft, &node, &dir_path, threshold).await? {
+                Some(true) => paced_waits += 1,
+                Some(false) => {
+                    paced_waits += 1;
+                    paced_timeouts += 1
+                }
+                None => {}
+            }
+            paced_ms += t.elapsed().as_secs_f64() * 1000.0;
+        }
     }
     let secs_writes = t0.elapsed().as_secs_f64();
     let end_quiet = quiesce(&raft, &node, &dir_path, 300, 20_000).await?;
@@ -277,6 +344,8 @@ async fn child_run(dir: &str, phase: &Value) -> anyhow::Result<Value> {
         "results": results,
         "end_dump": end_dump, "end_applied": end_applied, "metrics": metrics, "index": index,
         "files": files, "start_quiet": start_quiet, "end_quiet": end_quiet,
+        "pace": pace, "paced_waits": paced_waits, "paced_timeouts": paced_timeouts,
+        "paced_ms": paced_ms, "start_paced": start_paced, "compactions": index["snapshots"].clone(),
         "secs": {"factory": secs_factory, "leader": secs_leader, "loaded": secs_loaded,
                  "ready": secs_ready, "start_dump": secs_start_dump, "writes": secs_writes,
                  "quiet": secs_quiet, "total": secs_total},
@@ -429,6 +498,7 @@ impl Restart {
                 &phase_file,
                 serde_json::to_vec(&json!({
                     "threshold": threshold, "reqs": ph["reqs"], "all_reqs": all_reqs,
+                    "pace": case["pace"].as_bool().unwrap_or(false),
                     "scratch": scratch.to_string_lossy(),
                 }))?,
             )?;
